@@ -20,7 +20,8 @@ import (
 // Oracle/AsmBP (C15), MEASURED on every run with the installed toolchain and
 // the host CPU:
 //
-//  1. for the full grid attrs x frame x {leaf, calls}: an assembly function
+//  1. for the full grid attrs x frame (incl. 2^31 and 2^32+8: the assembler truncates the frame to int32)
+//     x {leaf, calls}: an assembly function
 //     that sets BP to a sentinel (and optionally calls a trivial function) is
 //     built with `go build` and called through an assembly trampoline that
 //     records BP before and after the call.  One child process per case.
@@ -319,7 +320,7 @@ func init() {
 		}
 		var grid []*c15GridRow
 		for _, a := range []int{0, 4, 512, 516} {
-			for _, fr := range []int{0, 8, 16, 4096} {
+			for _, fr := range []int{0, 8, 16, 4096, 1 << 31, 1<<32 + 8} {
 				for _, c := range []bool{false, true} {
 					grid = append(grid, &c15GridRow{Attrs: a, Frame: fr, HasCall: c})
 				}
